@@ -44,6 +44,9 @@ def unindent(lines, i1, i2):
 
 
 def unescape(w: str) -> str:
+    import re
+    if re.fullmatch(r"(?:\\[*_])+", w):       # a run of * or _ : one backslash per character
+        return w.replace("\\", "")
     if w.startswith("\\"):
         return w[1:]
     if len(w) >= 3 and w[-2] == "\\" and w[-1] in ".)":
